@@ -13,5 +13,7 @@ func rulesC08(c *Ctx, r *Report) {
 	rulesLocalClamp(c, r)
 	rulesTraceStop(c, r)
 	rulesStepsReversed(c, r)
+	rulesTracePanics(c, r)
+	rulesFillAllCells(c, r)
 	rulesPureAlign(c, r)
 }
